@@ -384,6 +384,7 @@ impl<TStdlib: Stdlib, TStdIn: Input, TStdOut: Printer, TLpt1: Printer>
             go_sub_address_stack: self.go_sub_address_stack.len(),
             stacktrace: self.stacktrace.len(),
             has_function_result: !self.function_result.is_empty(),
+            function_results: self.function_result.len(),
             last_error_code: self.last_error_code,
             has_last_error_address: self.last_error_address.is_some(),
         }
